@@ -153,6 +153,53 @@ def run(ctx):
                 real = UL.canon_real_incoming(UL.real_incoming(rdg, creds))
                 reqs.append(mreq)
                 impls.append(("incoming", {**case, "response": rdg.hex()}, real))
+    # one LIVE client whose account gets new secrets (pass-phrases rotated, hash switched) by
+    # configure() or inside reconfigure(): every request is encrypted, and every response decrypted,
+    # under the key of the credentials in force — keys are a function of (pass-phrase, hash, engine
+    # id), never of (engine id, user name) alone (seeded C11-41: a key cache in the security model)
+    for i in range(ctx.budget(6, 60)):
+        engine_id = b"\x80\x00\x1f\x88" + bytes(rng.randrange(256) for _ in range(8))
+        v3 = RA.V3Config(engine_id=engine_id)
+        agent = RA.Agent(db=[((1, 3, 6, 1, 2, 1, 1, 1, 0), ["str", "616263"])], v3=v3)
+        seam = Seam(agent)
+        client = None
+        prev = None
+        for step in range(rng.randint(2, 4)):
+            method = rng.choice(["md5", "sha1"])
+            authpw, privpw = rng.choice(pool)
+            if prev == (method, authpw, privpw):
+                continue
+            prev = (method, authpw, privpw)
+            creds = V3("rotating", Auth(authpw, method), Priv(privpw, "verifstream"))
+            v3.users[b"rotating"] = {"auth": (method, authpw), "priv": ("verifstream", privpw)}
+            how = "new" if client is None else rng.choice(["configure", "reconfigure"])
+            n0 = len(VS.CALLS)
+            try:
+                if client is None:
+                    client = Client("127.0.0.1", creds, sender=seam)
+                    got = W.run(client.get(RA.OID([1, 3, 6, 1, 2, 1, 1, 1, 0])))
+                elif how == "configure":
+                    client.configure(credentials=creds)
+                    got = W.run(client.get(RA.OID([1, 3, 6, 1, 2, 1, 1, 1, 0])))
+                else:
+                    with client.reconfigure(credentials=creds):
+                        got = W.run(client.get(RA.OID([1, 3, 6, 1, 2, 1, 1, 1, 0])))
+                    client.configure(credentials=creds)
+                result = ["ok", RA.canon_value(got)]
+            except Exception as exc:  # noqa: BLE001
+                result = ["error", RA.canon_exc(exc)]
+            res.evaluations += 1
+            res.count(f"live-client-rotation:{how}")
+            want_key = U.localise(method, privpw, engine_id)
+            calls = VS.CALLS[n0:]
+            bad = None
+            if any(c[1] != want_key for c in calls if c[0] in ("encrypt", "decrypt")):
+                bad = "privacy key is not the one of the credentials in force (stale key after a credential change on a live client)"
+            elif result != ["ok", ["str", "616263"]]:
+                bad = f"request on a live client after a credential change gave {result}"
+            if bad:
+                res.violate("wire", {"live_client": True, "step": step, "how": how, "method": method, "engine_id": engine_id.hex()}, "C11 oracle", {"result": result}, bad, {"kind": "priv", "what": "stale-key"})
+                break
     # credentials with a privacy pass-phrase but no authentication key (no such security level):
     # whatever the client does, the scoped PDU must not leave in clear
     for i in range(ctx.budget(12, 120)):
